@@ -112,10 +112,6 @@ pub fn check_batch<B: StrictOps>(ops: &[(u8, Vec<u8>, Vec<u8>)], loc: &mut Local
         if !iso(&r, &reference) {
             loc.violation("tensor_operations:not-the-declared-operations", json!({"case": case, "got": r, "expected": reference}));
         }
-        let labels: Vec<u8> = r.edges.iter().map(|e| e.label).collect();
-        if labels != ops.iter().map(|o| o.0).collect::<Vec<_>>() {
-            loc.violation("tensor_operations:edge-order", json!({"case": case, "got": r}));
-        }
     }
     if ops.len() == 1 {
         let o = &ops[0];
